@@ -127,8 +127,18 @@ class HandlerHooks(Hooks):
             dur = st.alloc(dur_cls, {"seconds": secs})
             first = "should_retry" if n.startswith("retry") else "should_continue"
             should = fresh("bool", first)
-            dec = st.alloc(dec_cls, {first: should, "delay": dur})
-            ev_.d.update(result=dec, should=should.t, delay=secs.t)
+            # the decision is an arbitrary well-typed instance of the decision class AS DECLARED NOW: a field that is declared optional may be None
+            stor_ = {}
+            for fname, ann, _d, owner in dec_cls.fields():
+                if fname == first:
+                    stor_[fname] = should
+                elif fname == "delay":
+                    stor_[fname] = mk_opt(z3.Bool(fresh_name("decision.delay.is_none")), dur) if "None" in ann else dur
+                else:
+                    stor_[fname] = eng.sym_of_type(ann, f"decision.{fname}", st, owner.module)
+            dec = st.alloc(dec_cls, stor_)
+            from pyvc.ops import is_none as _is_none
+            ev_.d.update(result=dec, should=should.t, delay=secs.t, delay_none=_is_none(stor_["delay"]) if "delay" in stor_ else None)
             s2 = st.fork()
             exc = eng.new_symexc(s2, "strategy")
             s2.emit("raised", name=n, exc=exc)
